@@ -131,6 +131,9 @@ SUMMARIES = {
     "std::vec::Vec::as_slice": IDENT,
     "std::path::Path::new": IDENT,
     "std::boxed::Box::new": IDENT,
+    "std::boxed::box_assume_init_into_vec_unsafe": IDENT,
+    "std::boxed::Box::assume_init": IDENT,
+    "std::slice::into_vec": IDENT, "core::slice::into_vec": IDENT, "slice::into_vec": IDENT,
     "std::option::Option::as_ref": IDENT,
     "std::option::Option::as_deref": IDENT,
     "std::option::Option::as_mut": IDENT,
@@ -164,6 +167,9 @@ SUMMARIES = {
     "std::collections::BTreeMap::values": [((ELEM,), 0, (ELEM, F1))],
     "std::collections::BTreeMap::keys": [((ELEM,), 0, (ELEM, F0))],
     "std::collections::HashMap::get": [((SOME, F0), 0, (ELEM, F1))],
+    "std::collections::HashMap::remove": [((SOME, F0), 0, (ELEM, F1))],
+    "std::collections::BTreeMap::remove": [((SOME, F0), 0, (ELEM, F1))],
+    "std::collections::HashMap::get_key_value": [((SOME, F0), 0, (ELEM,))],
     "std::collections::HashMap::get_mut": [((SOME, F0), 0, (ELEM, F1))],
     "std::collections::BTreeMap::get": [((SOME, F0), 0, (ELEM, F1))],
     "std::ops::Index::index": [((), 0, (ELEM,))],
@@ -836,6 +842,13 @@ class Body:
         n = callee_name(t)
         if opaque and opaque(t):
             return [Leaf("call", (bb, t), path, via)]
+        if n in ("std::boxed::Box::new_uninit", "std::boxed::Box::new_uninit_slice", "std::boxed::Box::new_zeroed"):
+            w = self._writes_through(t["dst"]["l"])
+            if w:
+                out = []
+                for rv_d in w:
+                    out += self._trace_rv(rv_d.node["rv"], path, rv_d, opaque, textra, follow_mut, seen, via + ("box-init",))
+                return out
         fa = textra.get("__flow_all__") if textra else None
         if fa is not None and fa(t):
             out = []
@@ -866,6 +879,35 @@ class Body:
             #  describes piecewise - is answered with the call itself, below)
         if not matched:
             return [Leaf("call", (bb, t), path, via)]
+        return out
+
+    def _writes_through(self, l):
+        """Assignments `(*p) = rv` through pointers derived from local l by copies, casts and field reads."""
+        derived = {l}
+        changed = True
+        while changed:
+            changed = False
+            for x, ds in self.defs.items():
+                if x in derived:
+                    continue
+                for d in ds:
+                    if d.kind != "assign":
+                        continue
+                    rv = d.node["rv"]
+                    src = None
+                    if rv["k"] in ("use", "cast"):
+                        src = op_place(rv["op"])
+                    elif rv["k"] in ("ref", "rawptr"):
+                        src = rv["place"]
+                    if src is not None and src["l"] in derived:
+                        derived.add(x)
+                        changed = True
+                        break
+        out = []
+        for x in derived:
+            for d in self.defs.get(x, []):
+                if d.kind == "assign" and "*" in d.node["dst"]["p"]:
+                    out.append(d)
         return out
 
     # -- guard facts ----------------------------------------------------------------------------
